@@ -27,12 +27,24 @@ inline void plain_access(uintptr_t a, size_t n, bool write, uintptr_t pc)
   if (!me || !g.active)
     return;
   me->last_pc = pc;
-  if (on_own_stack(me, a)) {
-    if (!any_shared_stack)
+  if (g.tso)
+    tso_capture(me);
+  bool own = on_own_stack(me, a);
+  if (own) {
+    bool shared = false;
+    if (any_shared_stack) {
+      uint32_t dummy;
+      shared = shared_stack_lines.find(a >> 6, &dummy);
+    }
+    if (!shared) {
+      if (g.tso) {
+        if (write)
+          tso_unbuffered_store(me, a, n, false);
+        else
+          tso_apply_view(me, a, n);
+      }
       return;
-    uint32_t dummy;
-    if (!shared_stack_lines.find(a >> 6, &dummy))
-      return;
+    }
   } else if (a - STACK_BASE < STACK_END - STACK_BASE) {
     // another simulated thread's stack
     uint32_t *s = shared_stack_lines.slot(a >> 6);
@@ -44,6 +56,14 @@ inline void plain_access(uintptr_t a, size_t n, bool write, uintptr_t pc)
   if (arena_contains(a))
     arena_check_access(me, a, n, write, pc);
   hb_access(me, a, n, write, pc);
+  if (g.tso) {
+    if (write && n > 16)
+      tso_unbuffered_store(me, a, n, true);
+    else if (write)
+      tso_store_hook(me, a, n);
+    else
+      tso_apply_view(me, a, n);
+  }
 }
 
 inline void volatile_access(uintptr_t a, size_t n, bool write, uintptr_t pc)
@@ -57,6 +77,12 @@ inline void volatile_access(uintptr_t a, size_t n, bool write, uintptr_t pc)
     arena_check_access(me, a, n, write, pc);
   // x86 + compiler barrier model enkiTS is written against: volatile load = acquire, store = release
   hb_atomic(me, a, write ? __ATOMIC_RELEASE : __ATOMIC_ACQUIRE, write ? 1 : 0);
+  if (g.tso) {
+    if (write)
+      tso_store_hook(me, a, n);
+    else
+      tso_apply_view(me, a, n);
+  }
 }
 
 inline Thread *atomic_pre(uintptr_t a, size_t n, OpKind k, uintptr_t pc, bool write)
@@ -113,95 +139,83 @@ void __tsan_write_range_pc(void *a, unsigned long n, void *) { plain_access((uin
 void __tsan_vptr_update(void **vptr, void *) { plain_access((uintptr_t)vptr, 8, true, PC); }
 void __tsan_vptr_read(void **vptr) { plain_access((uintptr_t)vptr, 8, false, PC); }
 
-#define ATOMICS(BITS, T)                                                                         \
-  T __tsan_atomic##BITS##_load(const volatile T *a, int mo)                                      \
-  {                                                                                              \
-    Thread *me = atomic_pre((uintptr_t)a, sizeof(T), OP_ALOAD, PC, false);                       \
-    T v = __atomic_load_n(a, __ATOMIC_SEQ_CST);                                                  \
-    if (me)                                                                                      \
-      hb_atomic(me, (uintptr_t)a, mo, 0);                                                        \
-    return v;                                                                                    \
-  }                                                                                              \
-  void __tsan_atomic##BITS##_store(volatile T *a, T v, int mo)                                   \
-  {                                                                                              \
-    Thread *me = atomic_pre((uintptr_t)a, sizeof(T), OP_ASTORE, PC, true);                       \
-    if (me)                                                                                      \
-      hb_atomic(me, (uintptr_t)a, mo, 1);                                                        \
-    __atomic_store_n(a, v, __ATOMIC_SEQ_CST);                                                    \
-  }                                                                                              \
-  T __tsan_atomic##BITS##_exchange(volatile T *a, T v, int mo)                                   \
-  {                                                                                              \
-    Thread *me = atomic_pre((uintptr_t)a, sizeof(T), OP_ARMW, PC, true);                         \
-    if (me)                                                                                      \
-      hb_atomic(me, (uintptr_t)a, mo, 2);                                                        \
-    return __atomic_exchange_n(a, v, __ATOMIC_SEQ_CST);                                          \
-  }                                                                                              \
-  T __tsan_atomic##BITS##_fetch_add(volatile T *a, T v, int mo)                                  \
-  {                                                                                              \
-    Thread *me = atomic_pre((uintptr_t)a, sizeof(T), OP_ARMW, PC, true);                         \
-    if (me)                                                                                      \
-      hb_atomic(me, (uintptr_t)a, mo, 2);                                                        \
-    return __atomic_fetch_add(a, v, __ATOMIC_SEQ_CST);                                           \
-  }                                                                                              \
-  T __tsan_atomic##BITS##_fetch_sub(volatile T *a, T v, int mo)                                  \
-  {                                                                                              \
-    Thread *me = atomic_pre((uintptr_t)a, sizeof(T), OP_ARMW, PC, true);                         \
-    if (me)                                                                                      \
-      hb_atomic(me, (uintptr_t)a, mo, 2);                                                        \
-    return __atomic_fetch_sub(a, v, __ATOMIC_SEQ_CST);                                           \
-  }                                                                                              \
-  T __tsan_atomic##BITS##_fetch_and(volatile T *a, T v, int mo)                                  \
-  {                                                                                              \
-    Thread *me = atomic_pre((uintptr_t)a, sizeof(T), OP_ARMW, PC, true);                         \
-    if (me)                                                                                      \
-      hb_atomic(me, (uintptr_t)a, mo, 2);                                                        \
-    return __atomic_fetch_and(a, v, __ATOMIC_SEQ_CST);                                           \
-  }                                                                                              \
-  T __tsan_atomic##BITS##_fetch_or(volatile T *a, T v, int mo)                                   \
-  {                                                                                              \
-    Thread *me = atomic_pre((uintptr_t)a, sizeof(T), OP_ARMW, PC, true);                         \
-    if (me)                                                                                      \
-      hb_atomic(me, (uintptr_t)a, mo, 2);                                                        \
-    return __atomic_fetch_or(a, v, __ATOMIC_SEQ_CST);                                            \
-  }                                                                                              \
-  T __tsan_atomic##BITS##_fetch_xor(volatile T *a, T v, int mo)                                  \
-  {                                                                                              \
-    Thread *me = atomic_pre((uintptr_t)a, sizeof(T), OP_ARMW, PC, true);                         \
-    if (me)                                                                                      \
-      hb_atomic(me, (uintptr_t)a, mo, 2);                                                        \
-    return __atomic_fetch_xor(a, v, __ATOMIC_SEQ_CST);                                           \
-  }                                                                                              \
-  T __tsan_atomic##BITS##_fetch_nand(volatile T *a, T v, int mo)                                 \
-  {                                                                                              \
-    Thread *me = atomic_pre((uintptr_t)a, sizeof(T), OP_ARMW, PC, true);                         \
-    if (me)                                                                                      \
-      hb_atomic(me, (uintptr_t)a, mo, 2);                                                        \
-    return __atomic_fetch_nand(a, v, __ATOMIC_SEQ_CST);                                          \
-  }                                                                                              \
-  int __tsan_atomic##BITS##_compare_exchange_strong(volatile T *a, T *c, T v, int mo, int fmo)   \
-  {                                                                                              \
-    Thread *me = atomic_pre((uintptr_t)a, sizeof(T), OP_ARMW, PC, true);                         \
-    int ok = __atomic_compare_exchange_n(a, c, v, 0, __ATOMIC_SEQ_CST, __ATOMIC_SEQ_CST);        \
-    if (me)                                                                                      \
-      hb_atomic(me, (uintptr_t)a, ok ? mo : fmo, ok ? 2 : 0);                                    \
-    return ok;                                                                                   \
-  }                                                                                              \
-  int __tsan_atomic##BITS##_compare_exchange_weak(volatile T *a, T *c, T v, int mo, int fmo)     \
-  {                                                                                              \
-    Thread *me = atomic_pre((uintptr_t)a, sizeof(T), OP_ARMW, PC, true);                         \
-    int ok = __atomic_compare_exchange_n(a, c, v, 0, __ATOMIC_SEQ_CST, __ATOMIC_SEQ_CST);        \
-    if (me)                                                                                      \
-      hb_atomic(me, (uintptr_t)a, ok ? mo : fmo, ok ? 2 : 0);                                    \
-    return ok;                                                                                   \
-  }                                                                                              \
-  T __tsan_atomic##BITS##_compare_exchange_val(volatile T *a, T c, T v, int mo, int fmo)         \
-  {                                                                                              \
-    Thread *me = atomic_pre((uintptr_t)a, sizeof(T), OP_ARMW, PC, true);                         \
-    T expected = c;                                                                              \
+#define RMW_PRE(a, T)                                                              \
+  Thread *me = atomic_pre((uintptr_t)(a), sizeof(T), OP_ARMW, PC, true);               \
+  if (me && g.tso)                                                                     \
+    tso_apply_view(me, (uintptr_t)(a), sizeof(T));
+#define RMW_POST(a, T)                                                                 \
+  if (me && g.tso)                                                                     \
+    tso_rmw_done(me, (uintptr_t)(a), sizeof(T));
+
+#define RMW_OP(BITS, T, NAME, BUILTIN)                                                 \
+  T __tsan_atomic##BITS##_##NAME(volatile T *a, T v, int mo)                           \
+  {                                                                                    \
+    RMW_PRE(a, T)                                                                      \
+    if (me)                                                                            \
+      hb_atomic(me, (uintptr_t)a, mo, 2);                                              \
+    T r = BUILTIN(a, v, __ATOMIC_SEQ_CST);                                             \
+    RMW_POST(a, T)                                                                     \
+    return r;                                                                          \
+  }
+
+#define ATOMICS(BITS, T)                                                               \
+  T __tsan_atomic##BITS##_load(const volatile T *a, int mo)                            \
+  {                                                                                    \
+    Thread *me = atomic_pre((uintptr_t)a, sizeof(T), OP_ALOAD, PC, false);             \
+    if (me && g.tso)                                                                   \
+      tso_apply_view(me, (uintptr_t)a, sizeof(T));                                     \
+    T v = __atomic_load_n(a, __ATOMIC_SEQ_CST);                                        \
+    if (me)                                                                            \
+      hb_atomic(me, (uintptr_t)a, mo, 0);                                              \
+    return v;                                                                          \
+  }                                                                                    \
+  void __tsan_atomic##BITS##_store(volatile T *a, T v, int mo)                         \
+  {                                                                                    \
+    Thread *me = atomic_pre((uintptr_t)a, sizeof(T), OP_ASTORE, PC, true);             \
+    if (me)                                                                            \
+      hb_atomic(me, (uintptr_t)a, mo, 1);                                              \
+    if (me && g.tso) {                                                                 \
+      if (mo == __ATOMIC_SEQ_CST)                                                      \
+        tso_flush_all(me);                                                             \
+      tso_atomic_store(me, (uintptr_t)a, sizeof(T), &v, mo == __ATOMIC_SEQ_CST);       \
+      return;                                                                          \
+    }                                                                                  \
+    __atomic_store_n(a, v, __ATOMIC_SEQ_CST);                                          \
+  }                                                                                    \
+  RMW_OP(BITS, T, exchange, __atomic_exchange_n)                                       \
+  RMW_OP(BITS, T, fetch_add, __atomic_fetch_add)                                       \
+  RMW_OP(BITS, T, fetch_sub, __atomic_fetch_sub)                                       \
+  RMW_OP(BITS, T, fetch_and, __atomic_fetch_and)                                       \
+  RMW_OP(BITS, T, fetch_or, __atomic_fetch_or)                                         \
+  RMW_OP(BITS, T, fetch_xor, __atomic_fetch_xor)                                       \
+  RMW_OP(BITS, T, fetch_nand, __atomic_fetch_nand)                                     \
+  int __tsan_atomic##BITS##_compare_exchange_strong(volatile T *a, T *c, T v, int mo, int fmo) \
+  {                                                                                    \
+    RMW_PRE(a, T)                                                                      \
+    int ok = __atomic_compare_exchange_n(a, c, v, 0, __ATOMIC_SEQ_CST, __ATOMIC_SEQ_CST); \
+    if (me)                                                                            \
+      hb_atomic(me, (uintptr_t)a, ok ? mo : fmo, ok ? 2 : 0);                          \
+    RMW_POST(a, T)                                                                     \
+    return ok;                                                                         \
+  }                                                                                    \
+  int __tsan_atomic##BITS##_compare_exchange_weak(volatile T *a, T *c, T v, int mo, int fmo) \
+  {                                                                                    \
+    RMW_PRE(a, T)                                                                      \
+    int ok = __atomic_compare_exchange_n(a, c, v, 0, __ATOMIC_SEQ_CST, __ATOMIC_SEQ_CST); \
+    if (me)                                                                            \
+      hb_atomic(me, (uintptr_t)a, ok ? mo : fmo, ok ? 2 : 0);                          \
+    RMW_POST(a, T)                                                                     \
+    return ok;                                                                         \
+  }                                                                                    \
+  T __tsan_atomic##BITS##_compare_exchange_val(volatile T *a, T c, T v, int mo, int fmo) \
+  {                                                                                    \
+    RMW_PRE(a, T)                                                                      \
+    T expected = c;                                                                    \
     int ok = __atomic_compare_exchange_n(a, &expected, v, 0, __ATOMIC_SEQ_CST, __ATOMIC_SEQ_CST); \
-    if (me)                                                                                      \
-      hb_atomic(me, (uintptr_t)a, ok ? mo : fmo, ok ? 2 : 0);                                    \
-    return expected;                                                                             \
+    if (me)                                                                            \
+      hb_atomic(me, (uintptr_t)a, ok ? mo : fmo, ok ? 2 : 0);                          \
+    RMW_POST(a, T)                                                                     \
+    return expected;                                                                   \
   }
 
 ATOMICS(8, uint8_t)
